@@ -387,6 +387,34 @@ def _drop_check(mol, rm, smi):
     return None
 
 
+_TOK = None
+
+
+def shrink(s, fam, budget=600):
+    """greedy token deletion keeping the same violation family (gives short witnesses for families found in long random strings)"""
+    global _TOK
+    import re
+    if _TOK is None:
+        _TOK = re.compile(r'\[[^\]]*\]|%[0-9]{2}|Cl|Br| \|[^|]*\||.', re.S)
+    toks = _TOK.findall(s)
+    calls = 0
+    improved = True
+    while improved and calls < budget:
+        improved = False
+        for width in (4, 3, 2, 1):
+            i = 0
+            while i + width <= len(toks) and calls < budget:
+                cand = toks[:i] + toks[i + width:]
+                t = ''.join(cand)
+                calls += 1
+                if t and judge(t, True)[1] == fam:
+                    toks = cand
+                    improved = True
+                else:
+                    i += 1
+    return ''.join(toks)
+
+
 def _fmt(obj):
     try:
         return str(obj)
@@ -583,7 +611,7 @@ def rxn_cx_templates():
            'C>>N |^1:0,1|', 'C.N>>O.S |f:0.1,2.3|', '[CH3:1][OH:2]>>[CH2:1]=[O:2]', '[CH3:1][OH:1]>>[CH2:1]=[O:2]', '[C:1]>[C:1]>[C:1]', '[C:2]>[C:1]>[C:3]',
            'C[CH2] |^1:1|', '[CH3] |^1:0|', 'C.[CH2]C |^1:1|', 'CC |^1:0,1|', 'C.N |f:0.1|', 'C.N.O |f:0.2|', 'C.N |f:0.1,^1:0|', '[CH3][CH2] |^1:1|',
            'CO |^2:0|', 'C[O] |^1:1|', 'c1ccccc1>>C1CCCCC1', 'C1CC1.C1CC1>>C', 'CC(=O)O.OCC>[H+]>CC(=O)OCC.O', '[Na+].[Cl-]>>[Na+].[Cl-] |f:0.1,2.3|',
-           'C>>N>O', 'C>N', 'C>>N |f:0.5|', 'C.N>>O |f:0.2|', 'C |^1:0| name', 'C name', 'CC\tname', ' C', 'C ', 'C |', 'C ||', 'C.N>>O |f:1.0|']
+           'C>>N>O', 'C>N', 'C>>N |f:0.5|', 'C.N>>O |f:0.2|', 'C/C=C=1\\C\\C1', 'C\\C=C1/2CC2CC1', 'C\\C=C\\1/2CCC2CC1', 'C/C=C/1CCCCCCC1', 'C1=C/CCCCCC/1', 'C |^1:0| name', 'C name', 'CC\tname', ' C', 'C ', 'C |', 'C ||', 'C.N>>O |f:1.0|']
     return out
 
 
@@ -655,7 +683,7 @@ def bounded(run):
     r = rnd('b03-gen')
     ngen = 2000 if quick else 20000
     gen = sorted({R.generate(r, max_atoms=r.choice((4, 8, 14, 20)), reaction=(i % 6 == 0)) for i in range(ngen)})
-    _merge(run, pmap(_w_strings, [(c, True, False) for c in _chunks(gen, 50)]), fam, odd, stats)
+    _merge(run, pmap(_w_strings, [(c, False, False) for c in _chunks(gen, 50)]), fam, odd, stats)
     run.bound(f'grammar-generated: {len(gen)} distinct seeded strings (molecules up to 20 atoms + closure padding, 1/6 reactions, CX radicals/groups)')
     nst = 400 if quick else 3000
     tpl = sorted(set(stereo_templates(rnd('b03-st'), nst) + cistrans_templates(rnd('b03-ct'), nst // 2) + rxn_cx_templates()))
@@ -689,6 +717,11 @@ def bounded(run):
     for k in sorted(fam):
         cnt, lst = fam[k]
         _, s, det = lst[0]
+        if len(s) > 12 and k != 'smiles-corpus-rejected':
+            s2 = shrink(s, k)
+            if len(s2) < len(s):
+                lst.insert(0, (len(s2), s2, judge(s2, True)[2]))
+                _, s, det = lst[0]
         run.violation(k, f'C03 family {k}: {cnt} input(s), shortest {s!r}: {det}',
                       witness={'smiles': s, 'examples': [x[1] for x in lst], 'count': cnt}, native=det)
 
